@@ -174,7 +174,13 @@ def main():
         rest_of[name] = rest
         plans = [(2, 2, 2), (2, 3, 2), (2, 4, 3), (3, 3, 2), (3, 4, 3)] if tier == "quick" else \
                 [(2, 2, 2), (2, 3, 2), (2, 4, 3), (2, 5, 3), (3, 3, 2), (3, 4, 3), (3, 5, 3), (3, 6, 4)]
-        wtasks.append({"program": name, "rs": corpus.programs[name]["rs"], "eql": corpus.programs[name]["eql"], "kind": cfg["witness"],
+        kind = cfg["witness"]
+        if prop == "C07" and any(l.startswith("step.contract") for l in rest):
+            kind = "contract"
+        # a witness that only exhibits a listed known finding (F1: a `!`-conclusion dropped at an early return, visible as an
+        # undefined term after the final close) is not a new violation: those items are excluded from the search
+        excl = r"^closed\.def:" if (prop == "C07" and any(k["id"] == "F1" for k in kn)) else None
+        wtasks.append({"program": name, "rs": corpus.programs[name]["rs"], "eql": corpus.programs[name]["eql"], "kind": kind, "exclude_items": excl,
                        "lemmas": sorted(set(r["lemma"][len("effects."):] for r in rs if r["lemma"].startswith("effects."))),
                        "plans": plans, "timeout": timeout, "budget": 240 if tier == "quick" else 1800,
                        "scratch": scratch, "exe": getattr(harness, "exe", None)})
